@@ -30,6 +30,7 @@ class Report(object):
         self.floors = []        # (rule, what, expected_min, found)
         self.unresolved_calls = 0
         self.extra = {}
+        self.errors = []        # analysis errors of individual rule sections (the other sections still run)
 
     # -- rules ---------------------------------------------------------
     def rule(self, rid, doc):
@@ -84,12 +85,19 @@ class Report(object):
         return bool(cond)
 
     def floor(self, rule, what, expected_min, found):
+        """A rule that matches fewer instances than were confirmed by hand cannot be believed; the
+        shortfall is an analysis error of that rule (exit 2 unless another rule reports a violation)."""
         self.floors.append((rule, what, expected_min, found))
         if found < expected_min:
-            raise AnalysisError(
+            self.errors.append(
                 "%s: instance floor not met for %s: expected >= %d, found %d "
                 "(the rule would pass vacuously; anchors moved or extractor stale)"
                 % (rule, what, expected_min, found))
+
+    def section(self, name):
+        """`with rep.section("R03.2"):` - an AnalysisError (unrecognised shape, vanished anchor) inside one
+        rule's section is recorded and the remaining sections still run."""
+        return _Section(self, name)
 
     def note(self, text):
         self.notes.append(text)
@@ -97,6 +105,28 @@ class Report(object):
     def assume(self, text):
         if text not in self.assumptions:
             self.assumptions.append(text)
+
+
+class _Section(object):
+    def __init__(self, rep, name):
+        self.rep = rep
+        self.name = name
+
+    def __enter__(self):
+        return self
+
+    def __exit__(self, et, ev, tb):
+        if et is None:
+            return False
+        if issubclass(et, AnalysisError):
+            self.rep.errors.append(str(ev))
+            self.rep.aborted = getattr(self.rep, "aborted", []) + [self.name]
+            return True
+        if issubclass(et, (NameError, UnboundLocalError)) and getattr(self.rep, "aborted", None):
+            # a value this section needs was to be produced by a section that could not answer
+            self.rep.errors.append("%s: not evaluated, depends on a section that could not answer (%s)" % (self.name, ", ".join(self.rep.aborted)))
+            return True
+        return False
 
 
 def fn_where(fi, node=None):
@@ -143,7 +173,10 @@ def run_property(prop, root=None, tier="quick"):
     index = Index(root or DEFAULT_ROOT)
     mod = importlib.import_module("sa.rules.%s" % prop.lower())
     rep = Report(prop, index)
-    mod.run(index, rep, tier)
+    try:
+        mod.run(index, rep, tier)
+    except AnalysisError as e:
+        rep.errors.append(str(e))
     return rep, time.time() - t0
 
 
@@ -280,12 +313,16 @@ def main(argv=None):
                 print("VIOLATION property=%s replay=%s" % (prop, rp))
         wall = time.time() - t0
         if not args.no_evidence:
-            write_evidence(prop, args.tier, rep, wall, new, matched, stale, extra)
+            write_evidence(prop, args.tier, rep, wall, new, matched, stale, extra, error="; ".join(rep.errors) if rep.errors else None)
         per = summarize(rep)
         print("%s %s: %d obligations over %d rules, %d new findings, %d known, %.2fs" % (
             prop, args.tier, len(rep.obligations), len(per), len(new), len(seen_known), wall))
+        for err in rep.errors:
+            print("ANALYSIS-ERROR property=%s %s" % (prop, err))
         if new:
             return 1
+        if rep.errors:
+            return 2
         if args.tier == "thorough" and not args.json and extra.get("mutant_failures"):
             for mf in extra["mutant_failures"]:
                 print("SELF-VALIDATION-FAILED property=%s %s" % (prop, mf))
